@@ -446,3 +446,74 @@ Print Assumptions C04_skew_diagonal_refuted.
 Print Assumptions C04_skew_offdiagonal_partial.
 Print Assumptions C04_linear_adjoint_complete.
 Print Assumptions C04_formulas_all.
+
+(** * (f) SUFFICIENCY ("a finite primal value is attained by a real member of the class"), for the classes where it
+    is elementary (Proofs/C04Sufficiency.v).  Whenever a finite list of triples (x_i, g_i, f_i) of an arbitrary
+    inner-product space satisfies the reference conditions of the class on ALL ordered pairs, there EXISTS a real
+    member of the class (Spec/Classes.v) of which every triple is a genuine sample (value and subgradient).
+    [convex_member] is [True] by definition, so the convexity of the constructed function ([convex_seg]: convex
+    domain, value below the chord) is part of each conclusion.  ConvexFunction: the max-affine interpolant;
+    ConvexIndicatorFunction(D), D finite or not: the indicator of the convex hull of the x_i (the diameter bound is
+    proved to extend from the points to their hull); StronglyConvexFunction(mu), mu >= 0: max-affine interpolant of
+    the shifted data plus mu/2 |.|^2.  For every other interpolation class sufficiency is the cited theorem and
+    stays in the trusted base (this half of C04 is partial). *)
+From PV Require Import Spec.Classes Proofs.C04Sufficiency.
+
+Theorem C04_sufficiency_convex :
+  forall (E : ips) (l : list (@triple E)),
+    l <> [] ->
+    (forall xi gi fi xj gj fj, In (xi, gi, fi) l -> In (xj, gj, fj) l -> ref_convex xi xj gj fi fj <= 0) ->
+    exists F : @fn E,
+      convex_member F /\ convex_seg F /\ (forall x, dom F x) /\
+      forall s, In s l -> genuine_sub F s.
+Proof. exact @suff_convex. Qed.
+
+Theorem C04_sufficiency_indicator :
+  forall (E : ips) (D : option R) (l : list (@triple E)),
+    (forall x g f, In (x, g, f) l -> ref_ind_value f = 0) /\
+    (forall xi gi fi xj gj fj, In (xi, gi, fi) l -> In (xj, gj, fj) l -> ref_ind_normal xi xj gj <= 0) /\
+    match D with
+    | Some d => forall xi gi fi xj gj fj, In (xi, gi, fi) l -> In (xj, gj, fj) l -> ref_diameter d xi xj <= 0
+    | None => True
+    end ->
+    exists F : @fn E,
+      indicator_member D F /\ convex_seg F /\
+      (forall x, dom F x <-> hull (fun u => exists g f, In (u, g, f) l) x) /\
+      forall s, In s l -> genuine_sub F s.
+Proof. exact @suff_indicator. Qed.
+
+Theorem C04_sufficiency_strongly_convex :
+  forall (E : ips) (mu : R) (l : list (@triple E)),
+    0 <= mu -> l <> [] ->
+    (forall xi gi fi xj gj fj, In (xi, gi, fi) l -> In (xj, gj, fj) l ->
+                               ref_strongly_convex mu xi xj gj fi fj <= 0) ->
+    exists F : @fn E,
+      strongly_convex_member mu F /\ convex_seg F /\ (forall x, dom F x) /\
+      forall s, In s l -> genuine_sub F s.
+Proof. exact @suff_strongly_convex. Qed.
+
+(** what the hull used above is: the points, closed under segments; inside every half-space and every ball that
+    contains the points *)
+Theorem C04_sufficiency_hull_spec :
+  forall (E : ips) (P : E -> Prop),
+    (forall x, P x -> hull P x) /\
+    (forall y z t, hull P y -> hull P z -> 0 <= t <= 1 -> hull P (seg y z t)) /\
+    (forall g b y, (forall u, P u -> inner u g <= b) -> hull P y -> inner y g <= b) /\
+    (forall z r y, (forall u, P u -> nrm2 (vsub u z) <= r) -> hull P y -> nrm2 (vsub y z) <= r).
+Proof. exact (fun E P => conj (@hull_pt E P) (conj (@hull_convex E P) (conj (@hull_halfspace E P) (@hull_ball E P)))). Qed.
+
+(** non-vacuity: three samples of |x|, of the indicator of [-1,1] (D = 2), of x^2 (mu = 2) on the real line meet
+    the hypotheses *)
+Example C04_sufficiency_examples :
+  (ex_abs <> [] /\ convex_cond ex_abs) /\ indicator_cond (Some 2) ex_ind /\
+  (ex_sq <> [] /\ strongly_convex_cond 2 ex_sq).
+Proof.
+  exact (conj (conj (proj1 suff_convex_nonvacuous) (proj1 (proj2 suff_convex_nonvacuous)))
+              (conj (proj1 suff_indicator_nonvacuous)
+                    (conj (proj1 suff_strongly_convex_nonvacuous) (proj1 (proj2 suff_strongly_convex_nonvacuous))))).
+Qed.
+
+Print Assumptions C04_sufficiency_convex.
+Print Assumptions C04_sufficiency_indicator.
+Print Assumptions C04_sufficiency_strongly_convex.
+Print Assumptions C04_sufficiency_hull_spec.
